@@ -297,7 +297,9 @@ def gen_schema(rng, with_signers=False, n_rules=None, allow_fn=True, defect24_cl
                         if r < 0.5:
                             opts.append(('lit', rng.choice(LIT_TEXTS)))
                         elif r < 0.75 and named:
-                            cand = [q for q in named if q != p]
+                            # mostly patterns that are bound before p (a later one can never be satisfied)
+                            earlier = named[:named.index(p)] if p in named else list(named)
+                            cand = earlier if (earlier and rng.random() < 0.8) else [q for q in named if q != p]
                             if cand:
                                 opts.append(('pat', rng.choice(cand)))
                             else:
@@ -307,7 +309,8 @@ def gen_schema(rng, with_signers=False, n_rules=None, allow_fn=True, defect24_cl
                             args = []
                             for _ in range(rng.choice([0, 1, 2])):
                                 if named and rng.random() < 0.5:
-                                    args.append(('pat', rng.choice(named)))
+                                    earlier = named[:named.index(p)] if p in named else list(named)
+                                    args.append(('pat', rng.choice(earlier if (earlier and rng.random() < 0.8) else named)))
                                 else:
                                     args.append(('lit', rng.choice(LIT_TEXTS)))
                             opts.append(('fn', fn, args))
@@ -316,9 +319,54 @@ def gen_schema(rng, with_signers=False, n_rules=None, allow_fn=True, defect24_cl
                     cs.append((p, opts))
                 if cs:
                     rule['cons'].append(cs)
+        if len(named) >= 3 and rng.random() < 0.2:
+            # alternative sets that constrain the same pattern by the same function / option kind with different earlier patterns
+            pi = rng.randrange(2, len(named))
+            e1, e2 = rng.sample(named[:pi], 2)
+            kind = rng.choice(['fn', 'fn', 'pat'])
+            fn = rng.choice(['$eq', '$not'])
+            if kind == 'fn':
+                rule['cons'] = [[(named[pi], [('fn', fn, [('pat', e1)])])], [(named[pi], [('fn', fn, [('pat', e2)])])]]
+            else:
+                rule['cons'] = [[(named[pi], [('pat', e1)])], [(named[pi], [('pat', e2)])]]
+        elif rule['cons'] and rng.random() < 0.35:
+            # a second constraint set that differs from an existing one in a single literal / pattern / function argument
+            import copy as _copy
+            cs = _copy.deepcopy(rng.choice(rule['cons']))
+            p_i = rng.randrange(len(cs))
+            pname, opts = cs[p_i]
+            o_i = rng.randrange(len(opts))
+            o = opts[o_i]
+            others = [q for q in named if q != pname]
+            if o[0] == 'lit':
+                opts[o_i] = ('lit', rng.choice([t for t in LIT_TEXTS if t != o[1]]))
+            elif o[0] == 'pat' and len(others) > 1:
+                opts[o_i] = ('pat', rng.choice([q for q in others if q != o[1]] or others))
+            elif o[0] == 'fn' and o[2]:
+                a_i = rng.randrange(len(o[2]))
+                a = o[2][a_i]
+                args = list(o[2])
+                if a[0] == 'pat' and named:
+                    args[a_i] = ('pat', rng.choice([q for q in named if q != a[1]] or named))
+                else:
+                    args[a_i] = ('lit', rng.choice([t for t in LIT_TEXTS if a[0] != 'lit' or t != a[1]]))
+                opts[o_i] = ('fn', o[1], args)
+            rule['cons'].append(cs)
         rules.append(rule)
         names.append(rname)
         levels[rname] = level
+        if not is_temp and rng.random() < 0.2 and i + 1 < n:
+            # the same name pattern and constraints once more (same or another rule id): with signers the two definitions
+            # end in one tree node and may list different signers
+            import copy as _copy
+            twin = _copy.deepcopy(rule)
+            if rng.random() < 0.5:
+                twin['name'] = '#w%d' % i
+                first_idx.setdefault(twin['name'], i)
+            twin['cons'] = twin['cons'] if rng.random() < 0.7 else []
+            rules.append(twin)
+            names.append(twin['name'])
+            levels[twin['name']] = level
     if with_signers:
         real = sorted({x for x in names if not x.startswith('#_')})
         for r in rules:
